@@ -12,7 +12,13 @@ Domain : the real FastAPI app `nemoguardrails.server.api.app` driven through `Te
                           separators, percent-encodings, unicode look-alikes, absolute paths, valid names;
          part "threads" : 3-24 requests over 3 thread ids (prefixes of each other, case variants, 255 chars) with
                           1-3 new messages each, interleaved with requests without a thread id, then one probe
-                          request per thread.
+                          request per thread; a step may be a turn with a failing generation, a turn that overlaps
+                          with a turn on another thread, or a turn during which the datastore cannot be read for its
+                          thread (DataStore.get raises / returns text that is not JSON / a truncated copy of the
+                          stored value / JSON that is not a list; set() keeps working).
+         ids, histories : a quarter of the requests behind the first one use the ids of an earlier request of the case
+                          joined into ONE id ('a/b', 'a-b', 'a,b', 'a b', ...: what a cache key or a log line of a
+                          served combination looks like), alone or next to a valid name.
 Oracle : ids - every path handed to from_path resolves (realpath) to the root or below it and nothing outside is
          touched; a request whose ids are all names of configuration directories of the root loads exactly
          root/<id> (or nothing if that list is already cached) and is answered by the rails; on a single-config
@@ -20,7 +26,9 @@ Oracle : ids - every path handed to from_path resolves (realpath) to the root or
          request gets the fixed "Could not load the [...] guardrails configuration. An internal error has
          occurred." reply and no rails run.  threads - reference model dict[thread_id] -> list: the stub must
          receive model[tid] + new messages, the reply is stored behind them, the set of stored threads equals the
-         model after every step (so other threads are unchanged).
+         model after every step (so other threads are unchanged).  A turn with a datastore read fault either does
+         not take place (no reply of its own, stored thread unchanged) or runs on exactly model[tid] + new messages
+         and stores that + reply; the model keeps the thread unchanged otherwise.
 """
 import atexit
 import hashlib
@@ -47,10 +55,20 @@ RULE = (
     "(../root-evil, ../outside/secret, absolute paths of the sibling/outside/inside configs, cfgA/../cfgB, backslash and "
     "percent-encoded and unicode look-alike variants, ...), a concatenation of 1-6 tokens from {.., ., ..., /, \\, //, %2e, %2f, "
     "%5c, fullwidth/one-dot-leader/division-slash look-alikes, cfgA, cfgB, root-evil, outside, secret, {BASE}, {ROOT}, {PARENT} = parent of the root, -, "
-    "space, ~, '' ...} or a valid name; part threads (1 of 11): 3-24 operations over 3 thread ids drawn from a pool with shared "
+    "space, ~, '' ...} or a valid name; 2 of 22 requests are a combination the server serves (2-3 valid names; [cfgA] or [cfgA,cfgA] on the "
+    "single-config root); every request behind the first is with probability 1/4 DERIVED from an earlier request of the case (one with 2+ ids "
+    "if there is one): its ids, in order (1/6 reversed), joined by one of / - , space \\ // ; : | + _ . '' %2f division-slash ', ' \"', '\" "
+    "('/' and '-' weighted) into ONE id, sent as config_id, as one-element config_ids or next to a valid name (labels "
+    "id:joined-form-of-earlier-ids / id:joined-form-of-served-combination when the earlier list was answered by rails); part threads (1 of 11): 3-24 operations over 3 thread ids drawn from a pool with shared "
     "16-character prefixes/case variants/255 characters, each with 1-3 messages (roles, small content alphabet so different "
     "threads hold equal messages, optional extra keys), ~10% without thread id, a quarter of the plain thread turns overlap with a complete turn on another thread id (served as its own task while the first is being generated), ~8% with context, configs cfgA/cfgB/[cfgA,cfgB], "
-    "followed by a probe request per thread. Enumerated: every curated id alone / after a valid load / inside lists on the "
+    "1/7 of the plain thread turns have a failing generation, 1/6 of the remaining plain sequential thread turns suffer a DATASTORE READ FAULT: for that one turn DataStore.get of "
+    "that thread's key raises (ConnectionError, TimeoutError, OSError, RuntimeError, KeyError, ValueError; 1/2), returns text that is not JSON (1/4), "
+    "a truncated copy (1-99%) of the stored value (1/8) or JSON that is not a list (null, 42, a string, an object, true; 1/8), while set() keeps working "
+    "(labels datastore-read-fault:<kind>, datastore-read-fault-on-thread-with-history), "
+    "followed by a probe request per thread. Enumerated: every joined form (each separator) of [cfgA,cfgB], [cfgB,cfgA], [cfgA,cfgB,cfgA], [cfgA,cfgA] "
+    "before and after that combination was served (config_id, one-element list, next to a valid name, reversed order) followed by the combination again; "
+    "every read fault kind/value on a thread with history and on a fresh thread between turns on two threads; every curated id alone / after a valid load / inside lists on the "
     "multi-config root, and every curated id, sibling folder name, '' and '.' alone (config_id and one-element list) and around loads "
     "of the root's own id on the single-config root. Non-trivial: ids case = some id contains a separator, a dot sequence, a "
     "percent-encoding or a look-alike, or (single-config root) is the name of a folder next to the root; threads case = at least 3 thread requests and at least 2 thread ids interleaved "
@@ -69,7 +87,16 @@ ASSUMPTIONS = [
     "requests with `context` on a thread: only 'stored = received + reply' is asserted (DESIGN 4/C20 S)",
     "excluded unless case.strict: (a) an id equal to the '-'-join of a list served earlier (cache key collision), "
     "(b) ids ending in .yml/.yaml (from_path opens them as files; a missing file surfaces as HTTP 500); confinement is still asserted",
-    "loads are observed at RailsConfig.from_path plus open/listdir/scandir audit events; the in-memory datastore is used",
+    "loads are observed at RailsConfig.from_path plus open/listdir/scandir audit events; the in-memory datastore is used "
+    "(a subclass whose get() fails the scripted way for one key during a turn with a read fault)",
+    "datastore read fault (get raises / returns a value that is not a JSON list, for the thread of that turn, for the whole turn; set works): "
+    "the statement leaves two outcomes - the turn does not take place (the client gets no reply produced by the rails, the stored thread is "
+    "unchanged; the unchanged server answers 'Internal server error.', probed for every fault value) or it runs on exactly stored thread + new "
+    "messages and stores that list + reply; the reply text of a turn that did not take place is not asserted; a store that answers None/'' "
+    "for an existing thread (indistinguishable from a new thread) and faults of set() are not generated; read faults are not combined with "
+    "context, a failing generation or an overlapping turn",
+    "joined forms are judged like any other id string, by whether the string names a configuration directory of the root (the join of a "
+    "one-element list is that id itself; no join of two valid names names a directory); the labels joined-form-* do not enter the verdict",
 ]
 WALL = {"quick": 150, "thorough": 1500}
 VALID = ("cfgA", "cfgB")
@@ -250,7 +277,20 @@ def _reset(e, mode="multi"):
             handler()
     # the startup handler registers its "/" route again on every run: drop the copies (harness hygiene only)
     del api.app.router.routes[e.n_routes:]
-    e.store = MemoryStore()
+    class FaultyStore(MemoryStore):
+        """The in-memory datastore; while `e.fault` is set, reading the key named there fails the scripted way."""
+
+        async def get(self, key):
+            f = e.fault
+            if f is not None and key == f["key"]:
+                e.fault_hits += 1
+                if f["kind"] == "raise":
+                    raise FAULT_EXC[f["exc"]]("scripted datastore read failure")
+                return f["value"]
+            return await MemoryStore.get(self, key)
+
+    e.fault, e.fault_hits = None, 0
+    e.store = FaultyStore()
     api.register_datastore(e.store)
 
 
@@ -380,11 +420,44 @@ def _id(draw, mode="multi"):
     return "".join(toks)
 
 
+# separators with which the ids of an earlier request are joined into ONE id (what a cache key / log line / joined form of
+# a served list looks like); every such string names no configuration directory of the root
+JOINERS = ["/", "/", "/", "-", "-", ",", " ", "\\", "//", ";", ":", "|", "+", "_", ".", "", "%2f", "∕", ", ", "', '"]
+
+
+def _req_ids(req):
+    if "config_ids" in req:
+        return [i for i in req["config_ids"] if isinstance(i, str)]
+    return [req["config_id"]] if isinstance(req.get("config_id"), str) and req["config_id"] else []
+
+
+@st.composite
+def _derived_request(draw, earlier, mode="multi"):
+    """A request whose id is the ids of an earlier request of the case joined by a separator (same order, sometimes
+    reversed): alone (config_id / one-element list) or next to a valid name."""
+    src = draw(st.sampled_from(earlier))
+    if draw(st.integers(0, 5)) == 0:
+        src = src[::-1]
+    joined = draw(st.sampled_from(JOINERS)).join(src)
+    form = draw(st.integers(0, 5))
+    if form < 3:
+        return {"config_id": joined}
+    if form == 3:
+        return {"config_ids": [joined]}
+    name = SOLO_ID if mode == "single" else draw(st.sampled_from(VALID))
+    return {"config_ids": [joined, name] if form == 4 else [name, joined]}
+
+
 @st.composite
 def _id_request(draw, mode="multi"):
-    k = draw(st.integers(0, 19))
+    k = draw(st.integers(0, 21))
     if k == 0:
         return draw(st.sampled_from([{}, {"config_id": None}, {"config_id": ""}, {"config_ids": []}, {"config_ids": [""]}, {"config_id": "."}]))
+    if k >= 20:
+        # a combination of configurations that the server serves (multi-config root), the one served id in a list (single)
+        if mode == "single":
+            return {"config_ids": [SOLO_ID] * draw(st.sampled_from([1, 1, 2]))}
+        return {"config_ids": draw(st.lists(st.sampled_from(VALID), min_size=2, max_size=3))}
     if k < 12:
         return {"config_id": draw(_id(mode))}
     n = draw(st.sampled_from([1, 2, 2, 3]))
@@ -430,6 +503,25 @@ def _message(draw):
     return m
 
 
+# datastore read faults: for exactly one turn DataStore.get for the thread of that turn raises, or returns something that is
+# not the stored JSON list (text that is not JSON, a truncated copy of the stored value, JSON that is not a list)
+FAULT_EXC = {"ConnectionError": ConnectionError, "TimeoutError": TimeoutError, "OSError": OSError, "RuntimeError": RuntimeError, "KeyError": KeyError, "ValueError": ValueError}
+FAULT_GARBAGE = ["<html><body>502 Bad Gateway</body></html>", "{", '[{"role": "user", "content": "hi"', "[{'role': 'user', 'content': 'hi'}]", "\x00\x01", "undefined", "[] []", "ERR timeout"]
+FAULT_NOT_A_LIST = ["null", "42", '"x"', '{"role": "user", "content": "hi"}', "true"]
+
+
+@st.composite
+def _read_fault(draw):
+    k = draw(st.integers(0, 7))
+    if k < 4:
+        return {"kind": "raise", "exc": draw(st.sampled_from(sorted(FAULT_EXC)))}
+    if k < 6:
+        return {"kind": "garbage", "value": draw(st.sampled_from(FAULT_GARBAGE))}
+    if k == 6:
+        return {"kind": "truncated", "keep": draw(st.integers(1, 99))}
+    return {"kind": "not-a-list", "value": draw(st.sampled_from(FAULT_NOT_A_LIST))}
+
+
 @st.composite
 def _threads_case(draw):
     tids = draw(st.lists(st.sampled_from(TIDS), min_size=3, max_size=3, unique=True))
@@ -448,6 +540,9 @@ def _threads_case(draw):
             # a turn on ANOTHER thread is served completely while this turn is being generated
             other = draw(st.sampled_from([t for t in range(3) if t != tid]))
             op["during"] = {"tid": other, "cfg": draw(st.sampled_from(["cfgA", "cfgB"])), "messages": draw(st.lists(_message(), min_size=1, max_size=2))}
+        if tid is not None and ctx is None and not op.get("fail") and "during" not in op and draw(st.integers(0, 5)) == 0:
+            # the datastore cannot be read for this thread during this turn (writing keeps working)
+            op["read_fault"] = draw(_read_fault())
         ops.append(op)
     return {"part": "threads", "tids": tids, "ops": ops}
 
@@ -458,7 +553,14 @@ def _case(draw):
         return draw(_threads_case())
     # server mode: the root holds configuration folders (multi) or the root itself is the configuration (single)
     mode = "single" if draw(st.integers(0, 2)) == 0 else "multi"
-    reqs = draw(st.lists(_id_request(mode), min_size=1, max_size=4))
+    reqs = []
+    for n in range(draw(st.integers(1, 4))):
+        # ids of an earlier request (preferably a list of several ids) joined into one id
+        earlier = [i for i in map(_req_ids, reqs) if len(i) >= 2] or [i for i in map(_req_ids, reqs) if i]
+        if earlier and draw(st.integers(0, 3)) == 0:
+            reqs.append(draw(_derived_request(earlier, mode)))
+        else:
+            reqs.append(draw(_id_request(mode)))
     return {"part": "ids", "mode": mode, "requests": reqs, "strict": True}
 
 
@@ -472,6 +574,11 @@ def enumerate_cases(tier):
         yield {"part": "ids", "requests": [{"config_id": cid}], "strict": True}
         yield {"part": "ids", "requests": [{"config_id": "cfgA"}, {"config_ids": ["cfgA", cid]}, {"config_ids": [cid, "cfgB"]}], "strict": True}
     yield {"part": "ids", "requests": [{"config_ids": ["cfgA", "cfgB"]}, {"config_ids": ["cfgB", "cfgA"]}, {"config_id": "cfgB"}, {"config_id": "cfgB"}], "strict": True}
+    # every joined form of a combination, before and after that combination was served
+    for lst in (["cfgA", "cfgB"], ["cfgB", "cfgA"], ["cfgA", "cfgB", "cfgA"], ["cfgA", "cfgA"]):
+        for j in sorted(set(JOINERS)):
+            s = j.join(lst)
+            yield {"part": "ids", "requests": [{"config_id": s}, {"config_ids": lst}, {"config_id": s}, {"config_ids": [s]}, {"config_ids": [s, "cfgA"]}, {"config_id": j.join(lst[::-1])}, {"config_ids": lst}], "strict": True}
     # single-config root: every curated id and every sibling folder name alone (config_id and one-element list), and
     # around loads of the root's own id
     for cid in CURATED + list(SOLO_SIBLINGS) + ["", "."]:
@@ -490,6 +597,14 @@ def enumerate_cases(tier):
                 o["fail"] = True
             ops2.append(o)
         yield {"part": "threads", "tids": tids, "ops": ops2}
+    # every kind of datastore read fault on a thread with history / on a fresh thread, between turns on two threads
+    faults = [{"kind": "raise", "exc": x} for x in sorted(FAULT_EXC)] + [{"kind": "garbage", "value": v} for v in FAULT_GARBAGE]
+    faults += [{"kind": "truncated", "keep": k} for k in (1, 50, 99)] + [{"kind": "not-a-list", "value": v} for v in FAULT_NOT_A_LIST]
+    for f in faults:
+        ops3 = [{"tid": t, "cfg": "cfgA", "messages": m(f"m{i}"), "context": None} for i, t in enumerate([0, 1, 0, 0, 1, 0, 2, 2])]
+        ops3[3]["read_fault"] = f
+        ops3[6]["read_fault"] = f
+        yield {"part": "threads", "tids": ["t" * 16, "t" * 17, "thread-abcdefghij"], "ops": ops3}
 
 
 # ---------------------------------------------------------------------------------------------
@@ -548,6 +663,7 @@ def _ids_case(e, case):
     single = case.get("mode", "multi") == "single"
     own = os.path.basename(e.root)  # single-config mode: the name of the root folder is the one id that is served
     served = {}  # cache key -> id list, for every request that was answered by rails in this case
+    earlier_lists, served_lists = [], []  # id lists (2+ ids, as written in the case) requested / answered by rails so far: labels only
     labels, skips = [], []
     nt = False
     view = []
@@ -567,6 +683,12 @@ def _ids_case(e, case):
         feats = {f for i in (raw_ids or []) for f in _features(i)}
         if single and any(i in SOLO_SIBLINGS for i in (raw_ids or [])):
             feats.add("name-of-folder-next-to-single-root")
+        for i in raw_ids or []:
+            # the id is the ids of an earlier request joined into one string (label only; the verdict below does not use it)
+            if any(i == j.join(lst) for lst in earlier_lists for j in set(JOINERS)):
+                feats.add("joined-form-of-earlier-ids")
+            if any(i == j.join(lst) for lst in served_lists for j in set(JOINERS)):
+                feats.add("joined-form-of-served-combination")
         feats = sorted(feats)
         if feats:
             nt = True
@@ -613,6 +735,10 @@ def _ids_case(e, case):
                 labels.append("rejected-after-from_path")
         if answered and key is not None:
             served.setdefault(key, ids)
+            if len(raw_ids) >= 2 and raw_ids not in served_lists:
+                served_lists.append(list(raw_ids))
+        if raw_ids and len(raw_ids) >= 2 and raw_ids not in earlier_lists:
+            earlier_lists.append(list(raw_ids))
         labels.append("outcome:" + outcome)
         view.append({"request": req, "status": status, "reply": (js or {}).get("messages", js) if isinstance(js, dict) else js, "loaded": [p.replace(e.base, "{BASE}") for p in paths]})
     labels.append("mode:single-config-root" if single else "mode:multi-config-root")
@@ -644,6 +770,8 @@ def _threads_run(e, case):
     n_thread_reqs = 0
     n_failed = 0
     n_overlaps = 0
+    n_faults = n_faults_hist = 0
+    fault_kinds = set()
     probes = [{"tid": i, "cfg": "cfgA", "messages": [{"role": "user", "content": f"probe-{i}"}], "context": None, "probe": True} for i in range(3)]
     for n, op in enumerate(list(case["ops"]) + probes):
         tid = None if op["tid"] is None else tids[op["tid"]]
@@ -660,8 +788,57 @@ def _threads_run(e, case):
         if during:
             e.nested = {"messages": json.loads(json.dumps(during["messages"])), "config_id": during["cfg"], "thread_id": tids[during["tid"]]}
             e.nested_result = None
-        status, js, paths, calls, touched = _post(e, body)
+        fault = op.get("read_fault") if tid is not None else None
+        if fault:
+            raw = e.store.data.get("thread-" + tid)
+            f = {"key": "thread-" + tid, "kind": fault["kind"], "exc": fault.get("exc"), "value": fault.get("value")}
+            if fault["kind"] == "truncated":
+                full = raw if raw is not None else "[]"
+                f["value"] = full[: min(len(full) - 1, max(1, len(full) * fault["keep"] // 100))]
+            e.fault, e.fault_hits = f, 0
+        try:
+            status, js, paths, calls, touched = _post(e, body)
+        finally:
+            e.fault = None
         what = f"step #{n} thread={tid!r:.40} cfg={op['cfg']!r} new={op['messages']!r}" + (f" context={op['context']!r}" if op.get("context") else "")
+        if fault:
+            # The datastore could not be read for this thread during this turn. The statement leaves two outcomes: the turn
+            # does not take place (no reply for it, the stored thread stays as it is), or it takes place on exactly the
+            # stored thread + the new messages and that list + the reply is stored. Never: a turn on other messages, a
+            # stored thread that is neither of the two, a change of another thread.
+            _check_confinement(e, what, paths, touched)
+            what += f" [datastore read fault for this thread during this turn: {json.dumps(fault)}, thread held {len(model[tid])} messages]"
+            n_faults += 1
+            if e.fault_hits:
+                fault_kinds.add(fault["kind"])
+                if model[tid]:
+                    n_faults_hist += 1
+            else:
+                fault_kinds.add("never-read")
+            expected = model[tid] + op["messages"]
+            for c in calls:
+                if c != expected:
+                    raise Violation("wrong-history-used", f"{what}: rails received {len(c)} messages {json.dumps(c)[:300]} but stored thread + new messages is {len(expected)} messages {json.dumps(expected)[:300]}")
+            replied = status == 200 and isinstance(js, dict) and len(calls) == 1 and js.get("messages") == [_reply_for(calls[0])]
+            try:
+                now = json.loads(e.store.data.get("thread-" + tid, "[]"))
+            except ValueError:
+                now = {"not-json": e.store.data.get("thread-" + tid)}
+            want = expected + [_reply_for(expected)] if replied else model[tid]
+            if now != want:
+                raise Violation(
+                    "wrong-thread-store",
+                    f"{what}: the turn " + ("was answered with its reply" if replied else f"did not take place (HTTP {status} {str(js)[:120]}, rails calls {len(calls)})")
+                    + f" but the thread now holds {json.dumps(now)[:300]}, expected {json.dumps(want)[:300]}",
+                )
+            if replied:
+                n_thread_reqs += 1
+                order.append(op["tid"])
+            model[tid] = want
+            got, exp = _stored(e), _model_values(model)
+            if got != exp:
+                raise Violation("wrong-thread-store", f"{what}: another thread changed: datastore {json.dumps(got)[:300]} vs model {json.dumps(exp)[:300]}")
+            continue
         if during:
             tid2 = tids[during["tid"]]
             what += f" [while it was generated, a turn on thread {tid2!r:.40} with {during['messages']!r} was served]"
@@ -731,6 +908,9 @@ def _threads_run(e, case):
         labels.append("failing-turn")
     if n_overlaps:
         labels.append("overlapping-turns-on-two-threads")
+    labels += ["datastore-read-fault:" + k for k in sorted(fault_kinds)]
+    if n_faults_hist:
+        labels.append("datastore-read-fault-on-thread-with-history")
     if any(isinstance(o["cfg"], list) for o in case["ops"]):
         labels.append("config_ids-on-thread")
     pre = {t[:16] for t in tids}
